@@ -72,6 +72,7 @@ def step (K : Closures) (s : St) : CondOp → St
       else s
   | .setEncapOne a => if s.ro then s else if s.enc.all (fun p => !p.contains a) then { s with enc := s.enc ++ [[a]] } else s
   | .setEncapPair a b => if s.ro then s else if s.enc.all (fun p => !p.contains a && !p.contains b) then { s with enc := s.enc ++ [[a, b]] } else s
+  | .setEncapNone => if s.ro then s else { s with enc := [] }
   | .setErr e => { s with err := e.isSome }
 
 /-- `Cond(kw, op, ex)` -/
